@@ -1433,7 +1433,27 @@ class Interp(ModelMixin):
     def ev_JoinedStr(self, e, st):
         parts = [v.value for v in e.values if isinstance(v, ast.FormattedValue)]
         res = []
+        fvals = [v for v in e.values if isinstance(v, ast.FormattedValue)]
+        first = []
         for vs, s in self.ev_all(parts, st):
+            if isinstance(vs, Raise):
+                first.append((vs, s))
+                continue
+            # {obj} / {obj!r} of a program object runs its __str__ / __repr__ (which may raise)
+            outs = [(None, s)]
+            for fv, v in zip(fvals, vs):
+                if isinstance(v, Ref) and v.kind == 'obj':
+                    nxt = []
+                    for r0, s1 in outs:
+                        if isinstance(r0, Raise):
+                            nxt.append((r0, s1))
+                            continue
+                        got = self.builtin('repr' if fv.conversion == 114 else 'str', [v], {}, s1, fv)
+                        nxt.extend((r1 if isinstance(r1, Raise) else None, s2) for r1, s2 in got)
+                    outs = nxt
+            for r0, s1 in outs:
+                first.append((r0 if isinstance(r0, Raise) else vs, s1))
+        for vs, s in first:
             if isinstance(vs, Raise):
                 res.append((vs, s))
                 continue
